@@ -110,6 +110,15 @@ pub fn pool() -> Vec<Pv> {
         six(6),
         six(7),
         o(&[("a", Pv::Nil), ("b", Pv::Int(2))]),
+        // same sizes, different key sets, "nothing-like" values under the keys that are not shared
+        o(&[("a", Pv::Nil)]),
+        o(&[("b", Pv::Nil)]),
+        o(&[("a", Pv::Bool(false))]),
+        o(&[("b", s(""))]),
+        o(&[("b", Pv::Int(2)), ("c", Pv::Nil)]),
+        o(&[("b", Pv::Int(2)), ("c", Pv::Bool(false))]),
+        Pv::Array(vec![Pv::Bool(false)]),
+        Pv::Array(vec![o(&[("a", Pv::Nil)])]),
         o(&[("o", o(&[("x", Pv::Int(1)), ("y", Pv::Int(2))])), ("p", Pv::Array(vec![Pv::Int(1), Pv::Int(2)]))]),
         o(&[("o", o(&[("x", Pv::Int(1)), ("y", Pv::Int(3))])), ("p", Pv::Array(vec![Pv::Int(1), Pv::Int(2)]))]),
         o(&[("o", o(&[("x", Pv::Int(1)), ("y", Pv::Int(2))])), ("p", Pv::Array(vec![Pv::Int(2), Pv::Int(1)]))]),
@@ -816,7 +825,7 @@ impl Engine for C11 {
     }
 
     fn rule(&self) -> String {
-        "one run = one assignment of per-object hash seeds (hook H2) and one insertion history per constructed object: every pool value (64 values: nil, booleans, integers incl. 2^53 and i64 bounds, floats incl. +-0.0, infinities, NaN, strings, dates, date-times incl. one instant in two offsets, empty/blank, arrays and objects nested two deep with 1/2/4/6 keys) is built canonically and twice more independently (fresh seeds, permuted insertion order, optional insert-then-remove churn, clone/to_value/serde round trip); ALL ordered pairs of the pool are checked for laws L1-L7, view agreement (Value, ValueCow, ValueViewCmp, ScalarCow and the heterogeneous impls against raw i64/f64/bool/str/String/KString/Date/DateTime) and construction independence over all 16 combinations of copies (one copy is built under a seed stream that is identical in every run, which ties all runs together); a seeded sample of pairs goes through if/case/contains templates and arrays of 2-40 multi-key objects through sort/uniq. distinct_nontrivial counts distinct seed assignments + insertion histories (one per run; each covers every pair that involves an object with >= 2 keys, counter multi_key_pairs_checked); the scalar pairs are a finite table repeated unchanged in every run and add nothing beyond completeness over the pool".into()
+        "one run = one assignment of per-object hash seeds (hook H2) and one insertion history per constructed object: every pool value (72 values: nil, booleans, integers incl. 2^53 and i64 bounds, floats incl. +-0.0, infinities, NaN, strings, dates, date-times incl. one instant in two offsets, empty/blank, arrays and objects nested two deep with 1/2/4/6 keys) is built canonically and twice more independently (fresh seeds, permuted insertion order, optional insert-then-remove churn, clone/to_value/serde round trip); ALL ordered pairs of the pool are checked for laws L1-L7, view agreement (Value, ValueCow, ValueViewCmp, ScalarCow and the heterogeneous impls against raw i64/f64/bool/str/String/KString/Date/DateTime) and construction independence over all 16 combinations of copies (one copy is built under a seed stream that is identical in every run, which ties all runs together); a seeded sample of pairs goes through if/case/contains templates and arrays of 2-40 multi-key objects through sort/uniq. distinct_nontrivial counts distinct seed assignments + insertion histories (one per run; each covers every pair that involves an object with >= 2 keys, counter multi_key_pairs_checked); the scalar pairs are a finite table repeated unchanged in every run and add nothing beyond completeness over the pool".into()
     }
     fn assumptions(&self) -> Vec<String> {
         vec![
